@@ -516,3 +516,7 @@ def sample_view(sc, r):
     if sc.get("app_reconnect"):
         return dict(sc)
     return {"url": build_url(sc), "opts": sc.get("opts"), "connections": sc.get("conns"), "redirect": sc.get("redirect")}
+
+
+# round 7 summary for the evidence file
+RULE = RULE + "  Round 7: subprotocol names with capitals (MQTT, v2.Chat.Example, MQTT + mqtt); '/' and '?' inside queries; family 'traced' and 20 % of the seeded scenarios with the library's enableTrace on (Cookie, Authorization, Proxy-Authorization as list and dict among the options): the wire is what the options say, whatever is written to the log."
